@@ -175,7 +175,7 @@ CHECKS['C11'] = (
     'Proof (on the model): index_versions_are_table_files (the builder lists exactly the table files of a basis, each with its path and the elements of its composition — by induction over the fold of the model), maxStr_is_max, mem_sortDict, filter_family_role, filter_elements, filter_substr, filter_and. Tie: model index = index written by '
     'create_metadata_file (ordered JSON) on generated directories incl. aliases and planted defects; model filter = real filter on the shipped index. On the '
     'real data: shipped METADATA.json = its regeneration (all entries except the basis sets emptied in this sandbox), every entry against get_basis / the table '
-    'files present / aliases / auxiliaries / lookup_basis_by_role, enumerations. Aliases: alias_keys, alias_own_names, alias_records_agree, alias_common_fields (one record per listed name, each with its own display name and the other names, all other fields - description, latest version, family, role, function types, auxiliaries, version table - shared). createMetadata_spec: the index as one statement - if the builder returns, the index holds exactly the records the metadata files contribute (one per listed name), nothing else, no name twice, in sorted order (induction over the two nested folds of the builder model); C01 covers the composition it relies on.',
+    'files present / aliases / auxiliaries / lookup_basis_by_role, enumerations. Aliases: alias_keys, alias_own_names, alias_records_agree, alias_common_fields (one record per listed name, each with its own display name and the other names, all other fields - description, latest version, family, role, function types, auxiliaries, version table - shared). createMetadata_spec: the index as one statement - if the builder returns, the index holds exactly the records the metadata files contribute (one per listed name), nothing else, no name twice, in sorted order (induction over the two nested folds of the builder model); C01 covers the composition it relies on. families_exact / allNames_exact: get_families is exactly the set of families of the index, each once, increasing; get_all_basis_names is a permutation of the display names, non-decreasing (tied to the API on the store and on every generated directory).',
     BASE_NOTE + 'string order of versions.', '6/C11')
 
 CHECKS['C09'] = (
